@@ -273,6 +273,16 @@ func (kc *Cache[V]) evict() *Entry[V] {
 		}
 	}
 	if n < 0 {
+		// every bucket is at or below minPerBucket (possible when max == 8*len(locus)*minPerBucket,
+		// since there are 8*len(locus)+1 buckets): fall back to the farthest non-empty bucket.
+		for i, b := range kc.buckets {
+			if b.len() > 0 {
+				n = i
+				break
+			}
+		}
+	}
+	if n < 0 {
 		return nil
 	}
 	b := kc.buckets[n]
